@@ -89,6 +89,12 @@ var interpFuncs = map[string]bool{
 	"(syscall.WaitStatus).Signal":     true,
 	"(syscall.WaitStatus).Stopped":    true,
 	"strings.Repeat":                  false,
+	"(time.Duration).Hours":           true,
+	"(time.Duration).Minutes":         true,
+	"(time.Duration).Seconds":         true,
+	"(time.Duration).Nanoseconds":     true,
+	"(time.Duration).Milliseconds":    true,
+	"(time.Duration).Microseconds":    true,
 	"(*crypto/rsa.PrivateKey).Public":     true,
 	"(*crypto/ecdsa.PrivateKey).Public":   true,
 	"(crypto/ed25519.PrivateKey).Public":  true,
